@@ -383,10 +383,16 @@ fn run_c18_net(input: RunInput) -> ScenFuture {
         for id in 0..n_req {
             let c = clients[r.gen_range(0..n_clients)].clone();
             let (at, dur) = (r.gen_range(0..100u64), r.gen_range(0..150u64));
+            let abandon = r.gen_bool(0.2);
             let (sid, w2, tm) = (server.peer_id, w.clone(), too_many.clone());
             tasks.push(tokio::spawn(async move {
                 sleep_ms(at).await;
                 let req = Request::new(Bytes::new()).with_header("id", id.to_string()).with_header("dur-ms", dur.to_string());
+                if abandon {
+                    // abandoned by the caller while inside the wrapped service: the slot must be freed
+                    let _ = tokio::time::timeout(Duration::from_millis(dur / 2 + 15), c.net.rpc(sid, req)).await;
+                    return;
+                }
                 match rpc_bounded(&c, sid, req, Duration::from_secs(120)).await {
                     Ok(resp) if resp.status() == StatusCode::Success => {
                         if resp.body() != &Bytes::from(id.to_string()) {
@@ -405,6 +411,30 @@ fn run_c18_net(input: RunInput) -> ScenFuture {
         }
         futures::future::join_all(tasks).await;
         let key = format!("limit={limit} mode={}", if block { "block" } else { "return-error" });
+        // no slot leaked by abandoned or failed calls: limit-many calls per client run at once
+        w.fabric.set_faults_enabled(false);
+        sleep_ms(if lossy { 12_500 } else { 300 }).await;
+        for (ci, c) in clients.iter().enumerate() {
+            if c.net.peer(server.peer_id).is_none() {
+                continue; // connection lost under loss
+            }
+            let before = inner.st.lock().unwrap().log.len();
+            let calls: Vec<_> = (0..limit).map(|k| {
+                let req = Request::new(Bytes::new()).with_header("id", (1_000_000 + ci * 10 + k).to_string()).with_header("dur-ms", "200");
+                rpc_bounded(c, server.peer_id, req, Duration::from_secs(30))
+            }).collect();
+            let probe = async {
+                sleep_ms(100).await;
+                inner.st.lock().unwrap().log.len() - before
+            };
+            let (rs, running) = futures::future::join(futures::future::join_all(calls), probe).await;
+            if running != limit {
+                w.violate("capacity-leaked", key.clone(), format!("after the history only {running} of {limit} simultaneous calls of client {ci} were inside the service at once"));
+            }
+            if rs.iter().any(|r| !matches!(r, Ok(resp) if resp.status() == StatusCode::Success)) {
+                w.violate("capacity-leaked", key.clone(), format!("limit-many fresh calls of client {ci} did not all succeed"));
+            }
+        }
         let st = inner.st.lock().unwrap();
         let ids: BTreeSet<PeerId> = clients.iter().map(|c| c.peer_id).collect();
         let mut reached = false;
